@@ -5,11 +5,18 @@ M: MC_Tokens - on every text up to 4 code points (9 classes) the token sequences
    HTML rendering); a byte-granular n-gram cutter (negative configuration) must fail.
 R: Gen_Tokens - TLC enumerates every text up to 3 (quick) / 4 (thorough) code points over 15
    code-point classes (1..4-byte, a combining mark, upper-case letters whose lower case changes the
-   byte length, blanks in and outside ASCII, NUL, HTML-special characters) and the harness runs 22
+   byte length, blanks in and outside ASCII, NUL, HTML-special characters) and the harness runs 34
    analyzer chains on each: raw, white-space, simple, n-gram (min/max/prefix-only), facet
    tokenizers with lower-caser, ASCII folding, remove-long, alphanumeric-only, stop-word filters
    (exact token sequences) and stemmer, compound splitter, regex tokenizer (offset invariants);
-   snippet cases (text x chain x terms x max_num_chars) through the real SnippetGenerator.
+   chains 23.. put the compound splitter (and stemmer, alphanumeric-only, stop words, remove-long)
+   BEHIND the filters that change the byte length of a token (lower-caser, ASCII folding) and
+   behind a stemmer, and filters behind the splitter;
+   snippet cases (text x chain x terms x max_num_chars) through the real SnippetGenerator, also
+   through the splitter chains (terms = pieces of the normalised words);
+   compound cases: word-rich texts over characters whose folded / lower-cased form has another
+   byte length, splitter dictionary cut by TLC out of the normalised words of that very text,
+   splitter behind lower-caser / ASCII folding / stemmer: token run + snippet per case.
 T: random texts of 6..40 and 150..400 code points; run-length texts up to a million bytes.
 Every observation is judged by TLC against spec/TokensTrace.tla."""
 import json
@@ -87,7 +94,7 @@ def key(run):
 
 def nontrivial(run):
     e = run[-1]
-    if e["ev"] == "tok":
+    if e["ev"] in ("tok", "tok1"):
         return len(e["text"]) >= 2 and any(c >= 128 for c in e["text"])
     if e["ev"] == "snip":
         return bool(e["highlighted"])
@@ -98,7 +105,8 @@ def judge(ctx, ev, chains, label, kf_tag=None):
     ctx.cov["events"] = ctx.cov.get("events", 0) + len(ev)
     ctx.cov["panics"] = ctx.cov.get("panics", 0) + sum(1 for e in ev if e["ev"] == "panic") + \
         sum(1 for e in ev if e["ev"] == "tok" for o in e["obs"] if len(o) != 2)
-    ctx.cov["token_sequences"] = ctx.cov.get("token_sequences", 0) + sum(len(e["obs"]) for e in ev if e["ev"] == "tok")
+    ctx.cov["token_sequences"] = ctx.cov.get("token_sequences", 0) + sum(len(e["obs"]) for e in ev if e["ev"] == "tok") + \
+        sum(1 for e in ev if e["ev"] == "tok1")
     return el.judge(ctx, MODULE, CFG, per_event_runs(ev, chains), label, key=key, nontrivial=nontrivial, kf_tag=kf_tag, timeout=900, heap="6g")
 
 
@@ -148,6 +156,44 @@ def snippets(ctx, chains, n):
     return ev
 
 
+LENGTH_CHANGING = {233, 201, 304, 570, 223}      # e-acute, E-acute, I-dot, A-stroke, sharp s
+
+
+def was_split(tokens):
+    """coverage only: two consecutive tokens with one position = parts of one compound (simple / white-space tokenizers)"""
+    return any(a[2] == b[2] for a, b in zip(tokens, tokens[1:]))
+
+
+def compounds(ctx, chains, n):
+    """splitter with a dictionary cut out of the words of the text, behind byte-length-changing filters"""
+    out = gen(ctx, "compound", simulate=n, seed=ctx.seed + 2)
+    cases = tagged_all(out, "CP")
+    if not cases:
+        raise vlib.ToolError("Gen_Tokens (compound) produced no case")
+    lines = []
+    for c in cases:
+        lines.append({"tk": {"text": c["text"], "chain": c["chain"]}})
+        lines.append({"sn": c})
+    ev = drive(ctx, chains, lines, "compound")
+    ok, bad = judge(ctx, ev, chains, "compound")
+    toks = [e for e in ev if e["ev"] == "tok1"]
+    hl = [e for e in ev if e["ev"] == "snip" and e["highlighted"]]
+    split = [e for e in toks if e["chain"]["tok"][0] in ("simple", "whitespace") and was_split(e["tokens"])]
+    ctx.cov["compound_splitter_cases"] = {
+        "cases": len(cases), "token_runs": len(toks), "token_runs_with_a_split_word": len(split),
+        "of_these_with_a_byte_length_changing_character": sum(1 for e in split if LENGTH_CHANGING & set(e["text"])),
+        "splitter_behind_a_stemmer": sum(1 for c in cases if ["stemmer"] in c["chain"]["filters"][:[f[0] for f in c["chain"]["filters"]].index("splitcompound")]),
+        "snippets_with_highlights": len(hl), "accepted": ok, "rejected": bad}
+    if split:
+        e = next((x for x in split if LENGTH_CHANGING & set(x["text"])), split[0])
+        ctx.sample({"kind": "compound case: text, chain (dictionary cut out of the normalised words), tokens [from, to, position, text]",
+                    "text": "".join(map(chr, e["text"])), "tokenizer": e["chain"]["tok"],
+                    "filters": [[f[0], ["".join(map(chr, w)) for w in f[1]]] if f[0] == "splitcompound" else f for f in e["chain"]["filters"]],
+                    "tokens": [[t[0], t[1], t[2], "".join(map(chr, t[3]))] for t in e["tokens"][:12]]})
+    log(f"[R] {len(cases)} compound cases ({len(split)} token runs with a split word, {len(hl)} snippets with highlights): {ok} accepted, {bad} rejected")
+    return ev
+
+
 def big(ctx, chains):
     out = gen(ctx, "big")
     cases = [{"big": c} for c in tagged_all(out, "BIG")]
@@ -166,7 +212,7 @@ def known_finding_runs(ctx, chains):
     ctx.cov.setdefault("known_finding_runs", {})["F12 snippet longer than max_num_chars"] = {"reproduced": bad, "cases": len(cases)}
 
 
-def binding_selftest(ctx, chains, enum_ev, snip_ev):
+def binding_selftest(ctx, chains, enum_ev, snip_ev, comp_ev):
     t = next(e for e in enum_ev if e["ev"] == "tok" and len(e["text"]) == 3 and e["text"][0] > 127 and len(e["obs"][4][1]) > 0)
 
     def mut(fn, name):
@@ -189,27 +235,38 @@ def binding_selftest(ctx, chains, enum_ev, snip_ev):
         c["highlighted"][0][1] += 1
         el.must_reject(ctx, MODULE, CFG, [{"ev": "reset", "chains": chains}, c], "snippet_range_moved")
     el.must_reject(ctx, MODULE, CFG, [{"ev": "reset", "chains": chains}, {"ev": "panic", "op": "snippet", "msg": "byte index 1 is not a char boundary"}], "panic_event")
+    # a part of a compound that ends inside a multi-byte character / behind the text
+    t = next(e for e in enum_ev if e["ev"] == "tok" and e["text"] == [233, 97, 233])
+    mut(lambda c: c["obs"][22][1][0].__setitem__(1, c["obs"][22][1][0][1] - 1), "compound_part_ends_inside_a_character")
+    c1 = next((e for e in comp_ev if e["ev"] == "tok1" and e["tokens"]), None)
+    if c1:
+        c = json.loads(json.dumps(c1))
+        c["tokens"][-1][1] = sum(len(chr(x).encode()) for x in c["text"]) + 1
+        el.must_reject(ctx, MODULE, CFG, [{"ev": "reset", "chains": chains}, c], "compound_part_past_the_end")
 
 
 def run(ctx):
-    ctx.cov["rule"] = ("a case is one text with the token sequences of all analyzer chains, one snippet request, or one huge run-length text with one "
-                       "chain; distinct = distinct (text, chain, terms, max); non-trivial = a text of two or more code points with a multi-byte one, or a "
+    ctx.cov["rule"] = ("a case is one text with the token sequences of all analyzer chains, one token run of one chain with a dictionary of its own, "
+                       "one snippet request, or one huge run-length text with one chain; distinct = distinct (text, chain, terms, max); non-trivial = a text of two or more code points with a multi-byte one, or a "
                        "snippet with at least one highlighted range")
     ctx.assumptions += ["TLC and the Json community module are trusted",
                         "code-point classes (alphanumeric, ASCII white space, lower case, ASCII folding) are specified for the code points of the check's alphabet",
                         "token texts of the stemmer, the compound splitter and the regex tokenizer are not specified (offset / position invariants only)",
                         "the facet tokenizer does not set offsets (0, 0): its token texts are specified, the slice clause does not apply to it",
                         "highlighted() may overlap for overlapping tokenizers (n-grams): sortedness is demanded of it, disjointness of collapse_overlapped_ranges",
+                        "the snippet generator looks a token up by its lower-cased text (token.text.to_lowercase()): a highlighted range owes a token whose lower-cased text is a term",
+                        "the compound splitter's parts may carry any offsets that satisfy the invariants (the unchanged tree gives every part the span of the whole compound)",
                         "snippet requests keep max_num_chars >= the longest token (the other case is the recorded finding F12)"]
     vlib.mc_check(ctx, "MC_Tokens", "MC_Tokens_neg.cfg", expect_violation="ByteGramsOk", timeout=120, workers=2)
     vlib.mc_check(ctx, "MC_Tokens", "MC_Tokens.cfg", timeout=600, workers=6)
     chains, enum_ev = enumeration(ctx)
     sampled(ctx, chains, "random", 400 if ctx.quick else 6000, "rand")
     sampled(ctx, chains, "long", 6 if ctx.quick else 120, "long")
-    snip_ev = snippets(ctx, chains, 3000 if ctx.quick else 60000)
+    snip_ev = snippets(ctx, chains, 4500 if ctx.quick else 80000)
+    comp_ev = compounds(ctx, chains, 1200 if ctx.quick else 20000)
     big(ctx, chains)
     known_finding_runs(ctx, chains)
-    binding_selftest(ctx, chains, enum_ev, snip_ev)
+    binding_selftest(ctx, chains, enum_ev, snip_ev, comp_ev)
     ctx.cov["exhaustive"] = False
 
 
